@@ -297,11 +297,12 @@ class Prop:
                     m.mids[kk]["inner"] = j
                 elif k == "del_local":
                     name = op["name"]
-                    if name in m.local:
+                    if name in m.local or DEFER[name][0] == "proto":
+                        # (also when there is no local value: the link is as it was)
                         _, e = sut(delattr, child, name)
                         if e is not None:
                             raise Violation("C11.del-raised", "del child.%s raised %r" % (name, e), i)
-                        del m.local[name]
+                        m.local.pop(name, None)
                 else:
                     raise HarnessError(k)
             env.end_op()
